@@ -17,6 +17,7 @@ import math
 from fractions import Fraction
 
 import core
+import t1
 from core import cz, cq, cstr, clist, ctuple, copt
 
 STEPS7 = ["C", "D", "E", "F", "G", "A", "B"]
@@ -302,6 +303,7 @@ def gen(T=None):
     L.append("Definition mode_spellings : list (Z * string) := [%s]." %
              "; ".join(ctuple([cz(i), cstr(str(MODES[i][1]).strip('"'))]) for i in range(len(MODES))))
     core.write_gen("C12_Tab", "\n".join(L) + "\n")
+    t1.gen()   # T1: Gen/T1_music.v, Gen/T1_score.v -- definitions translated from the current source text
     return T
 
 
@@ -943,10 +945,14 @@ def run(ctx):
     ctx.sample({"table": "name_grammar", "row": list(T["name_grammar"][200])})
     ctx.sample({"table": "tuplet", "row": [T["tuplet"][17][0], str(T["tuplet"][17][1])]})
     bad = oracle(T)
+    # T1 tie (harness/t1.py): equivalence proofs of the definitions translated from the source text; a function outside
+    # the translator's subset is stubbed (soft fall-back, no obligation fails); a proof that no longer compiles is
+    # reported there with a concrete differing input when one is found
+    t1_ok = t1.tie(ctx, "C12")
     ok, why = ctx.coq_props(expect_min=40)
     for fn, arg, got, exp in bad[:10]:
         ctx.violation("%s(%r) = %r, expected %r" % (fn, arg, got, exp), {"function": fn, "args": arg, "got": got, "expected": exp})
-    if not ok and not bad:
+    if not ok and not bad and t1_ok:
         ctx.violation("proof obligations of Props/C12.v no longer check: " + why, {"theorem_or_build": why}, no_input=True)
     if ok:
         run_ticks(ctx)
@@ -961,6 +967,8 @@ def replay(obj):
     import partitura.utils.music as M
     print(json_dumps(obj))
     r = obj.get("replay", {})
+    if r.get("kind") == "t1":
+        return t1.replay(r)
     if "ppq" in r and "t" in r:
         t = float.fromhex(r["t"]) if isinstance(r["t"], str) else r["t"]
         exact = Fraction(10 ** 6) * r["ppq"] * Fraction(t) / r["mpq"]
